@@ -29,6 +29,16 @@ type Val struct {
 	ExitTask                     int
 }
 
+// Named key types: z.Key admits any type whose underlying type is one of the
+// basic kinds; such keys take the reflect path of z.KeyToHash.
+type (
+	nInt    int
+	nInt64  int64
+	nUint64 uint64
+	nString string
+	nBytes  []byte
+)
+
 // cacheAPI hides the key type parameter.
 type cacheAPI interface {
 	Get(k int) (*Val, bool)
@@ -154,6 +164,18 @@ func newCache(cfg *CacheCfg) (cacheAPI, error) {
 		return newTyped[uint32](cfg, func(i int) uint32 { return uint32(keys[i].Int) }, func(k uint32) int { return idxOfInt(uint64(k)) })
 	case KeyByte:
 		return newTyped[byte](cfg, func(i int) byte { return byte(keys[i].Int) }, func(k byte) int { return idxOfInt(uint64(k)) })
+	case KeyUint:
+		return newTyped[uint](cfg, func(i int) uint { return uint(keys[i].Int) }, func(k uint) int { return idxOfInt(uint64(k)) })
+	case KeyNamedInt:
+		return newTyped[nInt](cfg, func(i int) nInt { return nInt(keys[i].Int) }, func(k nInt) int { return idxOfInt(uint64(k)) })
+	case KeyNamedInt64:
+		return newTyped[nInt64](cfg, func(i int) nInt64 { return nInt64(keys[i].Int) }, func(k nInt64) int { return idxOfInt(uint64(k)) })
+	case KeyNamedUint64:
+		return newTyped[nUint64](cfg, func(i int) nUint64 { return nUint64(keys[i].Int) }, func(k nUint64) int { return idxOfInt(uint64(k)) })
+	case KeyNamedString:
+		return newTyped[nString](cfg, func(i int) nString { return nString(fmt.Sprintf("k%d", keys[i].Int)) }, func(k nString) int { return parse(string(k)) })
+	case KeyNamedBytes:
+		return newTyped[nBytes](cfg, func(i int) nBytes { return nBytes(fmt.Sprintf("k%d", keys[i].Int)) }, func(k nBytes) int { return parse(string(k)) })
 	case KeyString:
 		return newTyped[string](cfg, func(i int) string { return fmt.Sprintf("k%d", keys[i].Int) }, parse)
 	case KeyBytes:
